@@ -151,6 +151,10 @@ where
                 break;
             }
         }
+        if trimbegin == self.textlen() {
+            //everything was trimmed from the begin already: an empty selection at the end remains
+            trimend = 0;
+        }
         self.textselection(&Offset::new(
             Cursor::BeginAligned(trimbegin),
             Cursor::EndAligned(trimend),
@@ -178,6 +182,10 @@ where
             } else {
                 break;
             }
+        }
+        if trimbegin == self.textlen() {
+            //everything was trimmed from the begin already: an empty selection at the end remains
+            trimend = 0;
         }
         self.textselection(&Offset::new(
             Cursor::BeginAligned(trimbegin),
